@@ -59,3 +59,24 @@ Definition ex_fs_cfg : cfg :=
     (fun _ => 0%Q) (fun _ => []) (fun _ => []) (fun _ => []).
 Definition ex_fs_opts : opts := mkOpts 0%Z [] false true true 50 [].
 Definition ex_fs_init : pstate := initialize ex_fs_cfg ex_fs_opts (blank ex_fs_cfg).
+
+(* two tasks on two components (component 1 is a child of 0), one workplace
+   with one facility, one worker who can operate it (C13) *)
+Definition ex_pl_cfg : cfg :=
+  mkCfg 2 1 1 2 1 1
+    (fun t => t) (fun t => match t with 0 => 2%Q | _ => 1%Q end)
+    (fun _ => 0%Q) (fun _ => 1%Q) (fun _ => false) (fun t => match t with 0 => true | _ => false end)
+    (fun t => match t with 0 => Some 0 | 1 => Some 1 | _ => None end)
+    (fun _ => []) (fun _ => []) (fun _ => [0]) (fun _ => [0]) (fun _ => None) (fun _ => None)
+    (fun _ => (-1)%Z) (fun _ => 0%Z) (fun _ => 0%Z) (fun _ => (-1)%Z)
+    (fun _ => 0) (fun _ => [(0, 1%Q); (1, 1%Q)]) (fun _ => [(0, 1%Q)])
+    (fun _ => 1%Q) (fun _ => false) (fun _ => []) (fun _ => None)
+    (fun g => match g with 0 => [0] | _ => [] end)
+    (fun _ => 0) (fun _ => 0) (fun _ => [(0, 1%Q)]) (fun _ => 1%Q) (fun _ => false) (fun _ => [])
+    (fun p => match p with 0 => [0] | _ => [] end) (fun _ => 2%Q) (fun _ => [])
+    (fun k => match k with 0 => 1%Q | _ => (1#2)%Q end)
+    (fun k => match k with 0 => [1] | _ => [] end)
+    (fun k => match k with 1 => [0] | _ => [] end)
+    (fun k => match k with 0 => [0] | 1 => [1] | _ => [] end).
+Definition ex_pl_opts : opts := mkOpts 0%Z [] false true true 50 [0; 1].
+Definition ex_pl_final : pstate := fst (simulate ex_pl_cfg ex_pl_opts (blank ex_pl_cfg)).
